@@ -158,3 +158,126 @@ func sanitize(s string) string {
 	}
 	return sb.String()
 }
+
+// classFill replaces the symbolic bytes of s by concrete representatives of
+// their character class (digit / lower / upper), if the path condition fixes
+// the class of each. It returns two different fillings, or ok=false.
+func (in *Interp) classFill(s *SStr) (string, string, bool) {
+	c := in.ctx
+	var a, b []byte
+	for _, p := range s.P {
+		switch {
+		case p.A != nil:
+			return "", "", false
+		case p.B != nil:
+			x := p.B
+			inRange := func(lo, hi byte) *sym.Term {
+				return c.And(c.ULe(c.BVC(8, uint64(lo)), x), c.ULe(x, c.BVC(8, uint64(hi))))
+			}
+			switch {
+			case in.mustBeFalse(c.Not(inRange('0', '9'))):
+				a, b = append(a, '1'), append(b, '8')
+			case in.mustBeFalse(c.Not(inRange('a', 'z'))):
+				a, b = append(a, 'a'), append(b, 'q')
+			case in.mustBeFalse(c.Not(inRange('A', 'Z'))):
+				a, b = append(a, 'A'), append(b, 'Q')
+			default:
+				return "", "", false
+			}
+		default:
+			a, b = append(a, p.Lit...), append(b, p.Lit...)
+		}
+	}
+	return string(a), string(b), true
+}
+
+func sameIdx(x, y [][]int) bool {
+	if len(x) != len(y) {
+		return false
+	}
+	for i := range x {
+		if len(x[i]) != len(y[i]) {
+			return false
+		}
+		for j := range x[i] {
+			if x[i][j] != y[i][j] {
+				return false
+			}
+		}
+	}
+	return true
+}
+
+func init() {
+	// Submatch extraction on a subject with symbolic bytes whose character
+	// classes are fixed by the path condition: the match structure is computed
+	// natively on two class-preserving fillings (they must agree) and the
+	// captures are cut out of the symbolic subject.
+	submatch := func(all bool) hookFn {
+		return func(fr *frame, a []Value) Value {
+			in := fr.in
+			re, ok := a[0].(*Native)
+			if !ok || re == nil {
+				in.unsupported("submatch on a symbolic regexp")
+			}
+			rx := re.V.Interface().(*regexp.Regexp)
+			n := -1
+			if all {
+				n = int(in.concreteInt(a[2], "FindAllStringSubmatch n"))
+			}
+			toVal := func(subj Value, idx [][]int) Value {
+				var out []Value
+				for _, m := range idx {
+					var caps []Value
+					for g := 0; g+1 < len(m); g += 2 {
+						if m[g] < 0 {
+							caps = append(caps, "")
+						} else {
+							caps = append(caps, in.strSlice(subj, m[g], m[g+1]))
+						}
+					}
+					out = append(out, caps)
+				}
+				if !all {
+					if len(out) == 0 {
+						return []Value(nil)
+					}
+					return out[0]
+				}
+				if out == nil {
+					return []Value(nil)
+				}
+				return out
+			}
+			if s, isSym := a[1].(*SStr); isSym {
+				if f1, f2, ok := in.classFill(s); ok {
+					var i1, i2 [][]int
+					if all {
+						i1, i2 = rx.FindAllStringSubmatchIndex(f1, n), rx.FindAllStringSubmatchIndex(f2, n)
+					} else {
+						if m := rx.FindStringSubmatchIndex(f1); m != nil {
+							i1 = [][]int{m}
+						}
+						if m := rx.FindStringSubmatchIndex(f2); m != nil {
+							i2 = [][]int{m}
+						}
+					}
+					if sameIdx(i1, i2) {
+						in.note("regexp submatch on symbolic digits/letters: match structure taken from class-preserving fillings (regexp assumed uniform on the class)")
+						return toVal(s, i1)
+					}
+				}
+			}
+			subj := in.concreteString(a[1], "regexp subject")
+			var idx [][]int
+			if all {
+				idx = rx.FindAllStringSubmatchIndex(subj, n)
+			} else if m := rx.FindStringSubmatchIndex(subj); m != nil {
+				idx = [][]int{m}
+			}
+			return toVal(subj, idx)
+		}
+	}
+	reg("(*regexp.Regexp).FindAllStringSubmatch", submatch(true))
+	reg("(*regexp.Regexp).FindStringSubmatch", submatch(false))
+}
